@@ -10,7 +10,7 @@ func init() {
 				n = 3
 			}
 			det := f4Job("programs", "VerifDeterminism", 0, []string{"ran"}, []string{"C05-same-output"},
-				"5 programs (static/instance namesakes, the same class name in two modules, in doubly nested modules, overloaded builtin use, inheritance + mixins) x 17 output modes (-i, --suggest, --hover, --llm-nav, --llm-nav --target, --llm-define [--class], --llm-class, --extends, --define, diagnostics, --llm-nav --all), each analysed twice in one path; every range over TSignatures / ClassInheritanceMap / MethodCallPoint / MethodCalleePoint / TSignatureDocument iterates forward or backward (one solver-chosen schedule variable per range statement, independent in the two runs)")
+				"6 programs (static/instance namesakes, a bare class-name prefix on the cursor row (class-list completion), the same class name in two modules, in doubly nested modules, overloaded builtin use, inheritance + mixins) x 17 output modes (-i, --suggest, --hover, --llm-nav, --llm-nav --target, --llm-define [--class], --llm-class, --extends, --define, diagnostics, --llm-nav --all), each analysed twice in one path; every range over TSignatures / ClassInheritanceMap / MethodCallPoint / MethodCalleePoint / TSignatureDocument iterates forward or backward (one solver-chosen schedule variable per range statement, independent in the two runs)")
 			det.Budget = 12000000
 			return []*Job{
 				{Name: "sorted-signatures", Pkg: "ti/base", Entry: "VerifSortedSigs", N: n, Budget: 2000000, Reach: []string{"sorted"}, Asserts: []string{"C05-sorted"}, Replay: "kernel", Cross: true, Config: "core",
